@@ -75,6 +75,7 @@ class BuildState(object):
         self.assumptions = {}     # prop -> list of (theorem, text)
         self.obligations = {}     # prop -> (n_theorems, n_discharged)
         self.forbidden = []
+        self.coqchk = {}          # prop -> summary printed by coqchk -o (thorough tier)
 
 
 _lock_fd = None
@@ -159,6 +160,14 @@ def _collect_assumptions(bs, prop):
         bs.proof_ok[prop] = False
         bs.proof_log[prop] = out[-4000:]
     bs.forbidden = scan_forbidden()
+    if os.environ.get("VERIF_CURRENT_TIER") == "thorough" and bs.proof_ok.get(prop):
+        # independent re-check of the compiled property file and everything it depends on
+        rc2, out2, _ = sh("timeout 3000 coqchk -silent -o -Q theories Shexer Shexer.Props.%s" % prop, cwd=ROCQ, timeout=3100)
+        i = out2.find("CONTEXT SUMMARY")
+        bs.coqchk[prop] = {"exit": rc2, "summary": re.sub(r"\s+", " ", out2[i:] if i >= 0 else out2[-600:]).strip()}
+        if rc2 != 0:
+            bs.proof_ok[prop] = False
+            bs.proof_log[prop] = "coqchk failed: " + out2[-1500:]
 
 
 def scan_forbidden():
@@ -355,6 +364,8 @@ class Run(object):
             cov["print_assumptions"] = [{"theorem": t, "assumptions": a} for t, a in bs.assumptions.get(prop, [])]
             cov["gen_consts_ok"] = bs.gen_ok
             cov["forbidden_constructs_found"] = bs.forbidden
+            if bs.coqchk.get(prop):
+                cov["coqchk"] = bs.coqchk[prop]
         cov["known_findings_reported"] = self.known
         cov["notes"] = self.notes
         ev = {"property_id": prop, "tier": self.tier, "seed": self.seed, "level": level, "coverage": cov,
